@@ -162,7 +162,7 @@ def information_weight(data, prior_strength=0.1, approximate_prior=False, target
     else:
         column_kl_divergence_func = column_kl_divergence_exact_prior
 
-    baseline_counts = np.squeeze(np.array(data.sum(axis=1)))
+    baseline_counts = np.array(data.sum(axis=1)).reshape(-1)
     if target is None:
         baseline_probabilities = baseline_counts / baseline_counts.sum()
     else:
